@@ -163,7 +163,9 @@ func (e *Exec) unsupported(format string, a ...interface{}) {
 func (fr *frame) stack() []string {
 	var out []string
 	for f := fr; f != nil && len(out) < 24; f = f.caller {
-		out = append(out, f.fn.String())
+		if f.fn != nil {
+			out = append(out, f.fn.String())
+		}
 	}
 	return out
 }
